@@ -140,8 +140,15 @@ class RouterAnalysis:
         for outer, inner in (('tulz::SubjectRouter::notify', f'{NODE}::notify'), ('tulz::ConcurrentSubjectRouter::notify', 'tulz::SubjectRouter::notify')):
             for f in [g for g in self.facts.fns if g.gname == outer]:
                 pack = f.d.get('targs', ['<?>'])[0]
-                calls = [n for n in f.nodes() if n.k == 'call' and strip_targs(n.calleeq or '') == inner]
-                ok = len(calls) == 1 and (calls[0].targs or ['?'])[0] == pack
+                try: end_ = int((f.d.get('endloc') or '').split(':')[1])
+                except Exception: end_ = f.line
+                scope = [f] + [g for g in self.facts.fns if g.d.get('lambda') and g.file == f.file and f.line <= g.line <= end_]
+                calls = [n for g in scope for n in g.nodes() if n.k == 'call' and strip_targs(n.calleeq or '') == inner]
+                if not calls and outer.startswith('tulz::ConcurrentSubjectRouter'):
+                    self.add('RT.1', None, f'{f.name[:80]} -> {inner.split("::")[-2]}::notify{pack}', f.shortloc(), 'the forwarding call was not found in notify() or the closures written inside it'); continue
+                in_f = [n for n in f.nodes() if n.k == 'call' and strip_targs(n.calleeq or '') == inner]
+                same_pack = [c for c in calls if (c.targs or ['?'])[0] == pack]
+                ok = (len(in_f) == 1 and (in_f[0].targs or ['?'])[0] == pack) if in_f else len(same_pack) >= 1
                 self.add('RT.1', ok, f'{f.name[:80]} -> {inner.split("::")[-2]}::notify{pack}', f.shortloc(),
                          '' if ok else f'forwards to {[c.callee for c in calls]}', key=f'RT.1|forward|{outer}')
         # subscribe: factory creates Subject<A...>, casts back to Subject<A...>
@@ -567,6 +574,15 @@ class RouterAnalysis:
         from lockset import protecting
         CSR = 'tulz::ConcurrentSubjectRouter'
         shared_cls = ('tulz::SubjectRouter', 'tulz::Subject', 'tulz::Observer', 'tulz::EternalObserver', 'tulz::Subscription')
+        lockf = common.router_lock_field(F)
+        if lockf is None:
+            self.add('CR.1', None, 'the router\'s lock', (F.cls(CSR) or {}).get('loc', ''), 'no single lock field (rwp::Resource / shared_mutex / an adapter of one / mutex) found in ConcurrentSubjectRouter'); return
+        lname = lockf['name']
+        if common._bare(lockf['ctype']) not in common.KNOWN_RW + ('std::mutex',):
+            ad = common.lock_adapter(F, common._bare(lockf['ctype']))
+            self.add('CR.1', ad, f'{common._bare(lockf["ctype"])}: lock()/lock_shared() forward to the exclusive / shared operation of the wrapped lock', lockf['loc'], '' if ad else 'the adapter maps lock()/lock_shared() to the wrong operation', key='CR.1|adapter')
+        ltype = common._bare(lockf['ctype'])
+        def own(t): return strip_targs(t[0]).startswith(CSR) and t[4] == ltype        # the router's lock field, or the handle's reference / pointer to it (flow: CR.2)
         per_root = {}
         for a in eng.accesses:
             g = strip_targs(a.root[1])
@@ -576,8 +592,8 @@ class RouterAnalysis:
             per_root.setdefault(g, []).append(a)
         self.n_csr_access = sum(len(v) for v in per_root.values())
         for g, accs in sorted(per_root.items()):
-            unl = [a for a in accs if not any(t[4] == 'tulz::rwp::Resource' for t in protecting(a))]
-            ws = [a for a in accs if a.mode == 'W' and not any(t[4] == 'tulz::rwp::Resource' and t[2] == 'W' for t in protecting(a)) and a not in unl]
+            unl = [a for a in accs if not any(own(t) for t in protecting(a))]
+            ws = [a for a in accs if a.mode == 'W' and not any(own(t) and t[2] in ('W', 'X') for t in protecting(a)) and a not in unl]
             self.add('CR.1', not unl, f'{g}: all {len(accs)} accesses to router/subject state are made with m_resource locked', accs[0].site,
                      '' if not unl else f'{unl[0].mode} access to {strip_targs(unl[0].cls)}::{unl[0].field} at {unl[0].site} (in {unl[0].fn.split("::")[-1]}) runs before/without the guard on m_resource: it can overlap a delivery or a subscribe',
                      key=f'CR.1|unlocked|{g}|{strip_targs(unl[0].cls)}::{unl[0].field}' if unl else None)
@@ -592,10 +608,21 @@ class RouterAnalysis:
         ok, why, site = common.invoker_resource_flow(F)
         self.add('CR.2', ok, 'the handle returned by subscribe() unsubscribes under a WriteLock on the router\'s own Resource', site, '' if ok else why, key='CR.2|flow')
         inv = [f for f in F.fns if f.gname == f'{CSR}::Subscription::ConcurrentInvoker::unsubscribe']
+        from lockset import guard_mode, MUTEX_GUARDS, RW_GUARDS
         for f in inv[:7]:
-            g = [n for n in f.nodes() if n.k == 'construct' and n.d.get('class') == 'tulz::rwp::WriteLock']
-            okg = len(g) == 1 and g[0].ns('args') and g[0].ns('args')[0] is not None and g[0].ns('args')[0].is_field('m_resource')
-            self.add('CR.2', okg, f'{f.name[-60:]}: takes a WriteLock on m_resource', f.shortloc(), '' if okg else 'unsubscribe of the concurrent handle does not take the write lock', key='CR.2|invoker-lock')
+            c_ = F.cls(f.d.get('classfull')) or {}
+            lf_ = [x['name'] for x in c_.get('fields', []) if common.rw_lock_type(F, x['ctype'])]
+            gs = [n for n in f.nodes() if n.k == 'construct' and ((n.d.get('class') or '') in RW_GUARDS or (n.d.get('class') or '').startswith(MUTEX_GUARDS))]
+            def on_own(n):
+                a = n.ns('args')[0] if n.ns('args') else None
+                while a is not None and (a.k == 'cast' or (a.k == 'unop' and a.op in ('*', '&'))): a = a.n('sub')
+                return a is not None and a.k == 'member' and a.field and a.name in lf_
+            mine = [n for n in gs if on_own(n)]
+            inst = f'{f.name[-60:]}: takes an exclusive lock on the router\'s lock'
+            if len(mine) == 1 and guard_mode(mine[0].d.get('class')) in ('W', 'X'): self.add('CR.2', True, inst, mine[0].shortloc(), key='CR.2|invoker-lock')
+            elif mine and all(guard_mode(n.d.get('class')) == 'R' for n in mine): self.add('CR.2', False, inst, mine[0].shortloc(), 'unsubscribe of the concurrent handle only takes the shared lock', key='CR.2|invoker-lock')
+            elif not gs: self.add('CR.2', False, inst, f.shortloc(), 'unsubscribe of the concurrent handle does not take the write lock', key='CR.2|invoker-lock')
+            else: self.add('CR.2', None, inst, f.shortloc(), 'the guard taken by unsubscribe() was not recognised as one on the handle\'s lock member')
         c = F.cls(CSR)
         if c is not None:
             for fld in c['fields']:
@@ -604,7 +631,7 @@ class RouterAnalysis:
             leaks = [m for m in c['methods'] if m['access'] == 'public' and m['ret'].replace('const ', '').strip() in ('tulz::SubjectRouter &', 'tulz::rwp::Resource &', 'tulz::SubjectRouter *', 'tulz::rwp::Resource *')]
             self.add('CR.3', not leaks, 'no public member hands out the router or the resource', c['loc'], '' if not leaks else f'{leaks[0]["name"]} returns {leaks[0]["ret"]}', key='CR.3|leak')
         for tok, site, chain in eng.reacquire:
-            if tok[4] == 'tulz::rwp::Resource':
+            if tok[4] == 'tulz::rwp::Resource' or common.rw_lock_type(F, tok[4]):
                 self.add('CR.1', False, 're-acquisition of m_resource while held', site, f'self-deadlock via {" > ".join(c.split("::")[-1] for c in chain[-3:])}', key=f'CR.1|reacquire|{strip_targs(chain[-1])}')
 
     def run(self, which):
